@@ -26,6 +26,9 @@ type PermNode struct {
 	ACL      *pb.Acl        // the ACL definition of this account/method
 	Status   ValidateStatus // the ACL validation status of this node
 	Children []*PermNode    // the children of this node, usually are ACL members of account/method
+	// Terminal is true if this node is the last component of at least one signer uri.
+	// Only the last component of a uri is checked against a signature (IdentifyAK).
+	Terminal bool
 }
 
 // NewPermNode return a default PermNode
@@ -122,6 +125,8 @@ func buildPermTree(root *PermNode, aclMgr base.AclManager,
 			pnode.Children = append(pnode.Children, newNode)
 			pnode = newNode
 		}
+		// pnode is now the node of the last component of this uri
+		pnode.Terminal = true
 	}
 	return root, nil
 }
